@@ -127,6 +127,181 @@ c08_treiber!(c08_treiber_pop_at111_k2, thorough, 3, true, 111, 2);
 c08_treiber!(c08_treiber_pop_at112_k3, thorough, 3, true, 112, 3);
 c08_treiber!(c08_treiber_push_at102_k3, thorough, 3, false, 102, 3);
 
+// ---------------------------------------------------------------- address-recycling allocator model
+// CBMC never hands out the address of a freed heap object again, so the ABA half of the Treiber hazards
+// (a freed node's address coming back with a different `next`) cannot occur in the plain harnesses above.
+// Here the 16-byte / 8-aligned allocations of stack nodes are served from a small static arena whose
+// freed blocks MAY be handed out again - which freed block, or a fresh one, is the solver's choice
+// (all allocator reuse policies at once). Natively the same model runs as the global allocator with the
+// replayed choices, so a counterexample replays deterministically against the real zipora code.
+pub mod recycle {
+    use core::alloc::Layout;
+    const SLOTS: usize = 8;
+    #[repr(align(8))]
+    #[derive(Clone, Copy)]
+    struct Slot([u8; 16]);
+    static mut POOL: [Slot; SLOTS] = [Slot([0; 16]); SLOTS];
+    /// 0 = never used, 1 = live, 2 = freed
+    static mut STATE: [u8; SLOTS] = [0; SLOTS];
+    static mut FRESH: usize = 0;
+    static mut PICKS: [u8; SLOTS] = [0; SLOTS];
+    static mut NEXT_PICK: usize = 0;
+    static mut ARMED: bool = false;
+    pub static mut REUSED: u32 = 0;
+
+    pub fn arm(picks: [u8; SLOTS]) {
+        unsafe {
+            STATE = [0; SLOTS];
+            FRESH = 0;
+            PICKS = picks;
+            NEXT_PICK = 0;
+            REUSED = 0;
+            ARMED = true;
+        }
+    }
+    pub fn disarm() {
+        unsafe { ARMED = false }
+    }
+    fn matches(l: &Layout) -> bool {
+        unsafe { ARMED && l.size() == 16 && l.align() == 8 }
+    }
+    unsafe fn take() -> *mut u8 {
+        let pick = if NEXT_PICK < SLOTS { PICKS[NEXT_PICK] as usize } else { SLOTS };
+        NEXT_PICK += 1;
+        if pick < SLOTS && STATE[pick] == 2 {
+            STATE[pick] = 1;
+            REUSED += 1;
+            return core::ptr::addr_of_mut!(POOL[pick]) as *mut u8;
+        }
+        let i = FRESH;
+        assert!(i < SLOTS, "node arena of the allocator model exhausted");
+        FRESH += 1;
+        STATE[i] = 1;
+        core::ptr::addr_of_mut!(POOL[i]) as *mut u8
+    }
+    /// index of `p` in the arena, or SLOTS
+    unsafe fn slot_of(p: *mut u8) -> usize {
+        let mut i = 0;
+        while i < SLOTS {
+            if p == core::ptr::addr_of_mut!(POOL[i]) as *mut u8 {
+                return i;
+            }
+            i += 1;
+        }
+        SLOTS
+    }
+    unsafe fn give_back(p: *mut u8) -> bool {
+        let i = slot_of(p);
+        if i == SLOTS {
+            return false;
+        }
+        assert!(STATE[i] == 1, "a stack node was freed twice");
+        STATE[i] = 2;
+        true
+    }
+
+    #[cfg(kani)]
+    extern "Rust" {
+        fn __rust_alloc(size: usize, align: usize) -> *mut u8;
+        fn __rust_dealloc(ptr: *mut u8, size: usize, align: usize);
+    }
+    #[cfg(kani)]
+    pub unsafe fn alloc_stub(layout: Layout) -> *mut u8 {
+        if matches(&layout) { take() } else { __rust_alloc(layout.size(), layout.align()) }
+    }
+    #[cfg(kani)]
+    pub unsafe fn dealloc_stub(ptr: *mut u8, layout: Layout) {
+        if !(layout.size() == 16 && layout.align() == 8 && give_back(ptr)) {
+            __rust_dealloc(ptr, layout.size(), layout.align())
+        }
+    }
+
+    /// `Box` frees go through `<Global as Allocator>::deallocate`, into which std's `dealloc` is already
+    /// inlined - so this method is the one to replace.
+    #[cfg(kani)]
+    pub unsafe fn global_deallocate_stub(_g: &std::alloc::Global, ptr: core::ptr::NonNull<u8>, layout: Layout) {
+        if layout.size() != 0 && !(layout.size() == 16 && layout.align() == 8 && give_back(ptr.as_ptr())) {
+            __rust_dealloc(ptr.as_ptr(), layout.size(), layout.align())
+        }
+    }
+
+    #[cfg(not(kani))]
+    mod native {
+        use std::alloc::{GlobalAlloc, Layout, System};
+        pub struct Recycling;
+        unsafe impl GlobalAlloc for Recycling {
+            unsafe fn alloc(&self, l: Layout) -> *mut u8 {
+                if super::matches(&l) { super::take() } else { System.alloc(l) }
+            }
+            unsafe fn dealloc(&self, p: *mut u8, l: Layout) {
+                if !(l.size() == 16 && l.align() == 8 && super::give_back(p)) {
+                    System.dealloc(p, l)
+                }
+            }
+        }
+        #[global_allocator]
+        static GLOBAL: Recycling = Recycling;
+    }
+}
+
+/// Same scenario as `treiber`, with stack nodes allocated by the recycling allocator model.
+fn treiber_recycle(a_pop: bool, point: u32, k: u32) {
+    let picks: [u8; 8] = vany();
+    let st = Stack::new();
+    recycle::arm(picks);
+    st.push(1);
+    st.push(2);
+    unsafe {
+        TRE = Tre { stack: &st, point, fired: false, k, next_val: 4, seen: [0; 8], b_ops: 0 };
+    }
+    set_sched_hook(tre_hook);
+    if a_pop {
+        tre_record(st.pop());
+    } else {
+        st.push(3);
+    }
+    clear_sched_hook();
+    tre_record(st.pop());
+    tre_record(st.pop());
+    tre_record(st.pop());
+    tre_record(st.pop());
+    tre_record(st.pop());
+    tre_record(st.pop());
+    assert!(st.is_empty(), "stack longer than everything ever pushed (cycle)");
+    recycle::disarm();
+    let pushed_by_b = unsafe { TRE.next_val } - 4;
+    let seen = unsafe { TRE.seen };
+    assert!(seen[1] == 1 && seen[2] == 1, "a pre-loaded element was lost");
+    assert!(seen[3] == if a_pop { 0 } else { 1 }, "A's element was lost or invented");
+    assert!(seen[4] == if pushed_by_b >= 1 { 1 } else { 0 }, "B's element was lost or invented");
+    assert!(seen[5] == if pushed_by_b >= 2 { 1 } else { 0 }, "B's element was lost or invented");
+    assert!(seen[6] == if pushed_by_b >= 3 { 1 } else { 0 }, "B's element was lost or invented");
+    zcover!(unsafe { recycle::REUSED } >= 1, "opt: a freed node address was handed out again");
+    zcover!(unsafe { TRE.b_ops } >= 2, "interference ran two operations");
+    forget(st);
+}
+
+macro_rules! c08_treiber_recycle {
+    ($name:ident, $tier:ident, $unwind:literal, $apop:literal, $point:literal, $k:literal) => {
+        zv_harness! {
+            name: $name,
+            prop: "C08",
+            tier: $tier,
+            unwind: $unwind,
+            stubs: [alloc::fmt::format => crate::common::stubs::fmt_format,
+                    std::alloc::alloc => crate::c08_concurrent::recycle::alloc_stub,
+                    <std::alloc::Global as core::alloc::Allocator>::deallocate => crate::c08_concurrent::recycle::global_deallocate_stub],
+            targets: "memory::secure_pool::LockFreeStack::<u64>::{push,pop} with an allocator that recycles freed node addresses (ABA); schedule points 101,102,111,112",
+            bounds: "as c08_treiber_*, plus: every node allocation takes a fresh block or ANY previously freed block of an 8-block arena (solver's choice per allocation); K = last instance arg interfering operations at ONE schedule point",
+            oracle: "no element handed out twice, multiset popped+drained == pushed, no node freed twice, stack empties after a bounded drain",
+            body: { treiber_recycle($apop, $point, $k) }
+        }
+    };
+}
+c08_treiber_recycle!(c08_treiber_recycle_pop_at112_k3, quick, 9, true, 112, 3);
+c08_treiber_recycle!(c08_treiber_recycle_pop_at111_k3, quick, 9, true, 111, 3);
+c08_treiber_recycle!(c08_treiber_recycle_push_at102_k3, quick, 9, false, 102, 3);
+
 // ---------------------------------------------------------------- LockFreeMemoryPool fast bins
 use std::ptr::NonNull;
 use zipora::memory::lockfree_pool::{BackoffStrategy, LockFreeMemoryPool, LockFreePoolConfig};
@@ -190,6 +365,7 @@ fn lf_hook(id: u32) {
         if LF.k >= 1 { lf_b_op(); }
         if LF.k >= 2 { lf_b_op(); }
         if LF.k >= 3 { lf_b_op(); }
+        if LF.k >= 4 { lf_b_op(); }
     }
 }
 
@@ -200,7 +376,7 @@ fn lfpool_sched(a_alloc: bool, point: u32, k: u32) {
     let cfg = LockFreePoolConfig {
         memory_size: 512,
         enable_stats: false,
-        max_cas_retries: 3,
+        max_cas_retries: 2,
         backoff_strategy: BackoffStrategy::None,
         enable_cache_alignment: false,
         cache_config: None,
@@ -214,12 +390,12 @@ fn lfpool_sched(a_alloc: bool, point: u32, k: u32) {
     let get = |p: &LockFreeMemoryPool| -> NonNull<u8> {
         match p.allocate(LF_SIZE) { Ok(x) => x, Err(e) => { forget(e); panic!("512-byte arena refused a 16-byte request") } }
     };
+    // free list: p1 -> p2 (two blocks); thread B already owns p3, thread A owns a_own
     let (p1, p2, p3, a_own) = (get(&pool), get(&pool), get(&pool), get(&pool));
-    forget(pool.deallocate(p3, LF_SIZE));
     forget(pool.deallocate(p2, LF_SIZE));
     forget(pool.deallocate(p1, LF_SIZE));
     unsafe {
-        LF = Lf { pool: &pool, point, fired: false, k, b_held: [None; 4], b_ops: 0 };
+        LF = Lf { pool: &pool, point, fired: false, k, b_held: [Some(p3), None, None, None], b_ops: 0 };
     }
     zipora::verif_hooks::set_sched_hook(lf_hook);
     let mut a_block: Option<NonNull<u8>> = Some(a_own);
@@ -271,13 +447,14 @@ macro_rules! c08_lfpool {
             unwind: $unwind,
             stubs: [alloc::fmt::format => crate::common::stubs::fmt_format],
             targets: "memory::lockfree_pool::LockFreeMemoryPool::{allocate, deallocate, allocate_from_fast_bin, deallocate_to_fast_bin, pack_head, unpack_head, allocate_new_block}; schedule points 201,202 (pop) and 211,212 (push)",
-            bounds: "512-byte arena, one size class (16 bytes), free list pre-loaded with 3 blocks, max_cas_retries 3; thread A: one allocate (instance arg true) or one deallocate (false); the first time A reaches ONE schedule point (arg before last) the solver runs 0..K complete allocate/deallocate operations of thread B (K = last arg); B holds at most 4 blocks; sequentially consistent atomics; unwind 66 covers the 64 fast bins built by new()",
+            bounds: "512-byte arena, one size class (16 bytes), free list pre-loaded with 2 blocks, thread B owns a third, max_cas_retries 2; thread A: one allocate (instance arg true) or one deallocate (false); the first time A reaches ONE schedule point (arg before last) the solver runs 0..K complete allocate/deallocate operations of thread B (K = last arg); B holds at most 4 blocks; sequentially consistent atomics; unwind 66 covers the 64 fast bins built by new()",
             oracle: "after quiescence and three further allocations, all blocks owned by A, by B and just handed out are pairwise distinct addresses (no block owned twice, no owned block still on the free list); CBMC pointer checks on every free-list link",
             body: { lfpool_sched($aalloc, $point, $k) }
         }
     };
 }
-c08_lfpool!(c08_lfpool_alloc_at202_k3, quick, 66, true, 202, 3);
-c08_lfpool!(c08_lfpool_alloc_at201_k3, quick, 66, true, 201, 3);
+c08_lfpool!(c08_lfpool_alloc_at202_k4, quick, 66, true, 202, 4);
+c08_lfpool!(c08_lfpool_alloc_at201_k4, thorough, 66, true, 201, 4);
 c08_lfpool!(c08_lfpool_free_at212_k2, quick, 66, false, 212, 2);
 c08_lfpool!(c08_lfpool_free_at211_k3, thorough, 66, false, 211, 3);
+
